@@ -11,6 +11,7 @@ mod c05;
 mod c06;
 mod c08;
 mod c09;
+mod c10;
 mod c07;
 mod c14;
 mod c20;
@@ -54,6 +55,7 @@ fn main() {
         "C06" => c06::run(&o),
         "C08" => c08::run(&o),
         "C09" => c09::run(&o),
+        "C10" => c10::run(&o),
         "C07" => c07::run(&o),
         "C14" => c14::run(&o),
         "C20" => c20::run(&o),
